@@ -49,7 +49,7 @@ Proof. exact def_order. Qed.
 Print Assumptions C07_def_order.
 
 (* non-vacuity: probes are stable at module level and are recorded; `o(1).a = d(2)[p(3)] = p(0)` *)
-Definition g0 : nsp := Nsp 0 NGlobal "top" 0 [] [] [] [] [] false false [] [].
+Definition g0 : nsp := Nsp 0 NGlobal "top" 0 [] [] [] [] [] false false [] [] [].
 Definition probe (k : Z) : expr := Call (Name "p") [Constant (CInt k)] [].
 Example C07_nonvacuous :
   stable g0 (probe 0) /\ Forall (simple_target g0) [Attribute (probe 1) "a"; Subscript (probe 2) (probe 3)] /\
